@@ -4,6 +4,7 @@ package c01
 import (
 	"encoding/json"
 	"fmt"
+	"io"
 	"math/rand"
 	"net"
 	"os"
@@ -336,6 +337,74 @@ func runSlow(rec *vcommon.Rec, carrier string, d time.Duration) {
 	rec.Stat("slow_transfers_completed:"+carrier, 1)
 }
 
+// runResidues: one logical connection; writes of 1, 2, 3, ... maxN bytes, each delivered before the next is written (so
+// that every write travels as a frame of its own): every message length the carrier's framing, fragmentation or name
+// encoding can see occurs once per direction.
+func runResidues(rec *vcommon.Rec, carrier string, maxN int) {
+	c := map[string]interface{}{"scenario": "every-write-size", "carrier": carrier, "max": maxN}
+	rec.Mark(c)
+	p, err := e2e.Start(e2e.Options{Carrier: carrier, Tag: "r"})
+	if err != nil {
+		rec.Violation(carrier+":unix:setup-failed", c, err.Error())
+		return
+	}
+	defer p.Close()
+	app, tgt, o, err := p.Open("echo")
+	if err != nil || o != e2e.Done {
+		rec.Inconclusive("residues: open failed", c)
+		return
+	}
+	defer app.Close()
+	defer tgt.Close()
+	k := uint64(rec.Seed())*977 + 11
+	for di, dir := range []string{"c2t", "t2c"} {
+		w, r := app, tgt
+		if dir == "t2c" {
+			w, r = tgt, app
+		}
+		key := k + uint64(di)
+		off := int64(0)
+		for n := 1; n <= maxN; n++ {
+			chunk := make([]byte, n)
+			vcommon.FillKeyed(key, off, chunk)
+			var problem string
+			got := e2e.Go(func() {
+				buf := make([]byte, n)
+				if _, err := io.ReadFull(r, buf); err != nil {
+					problem = fmt.Sprintf("read of the %d-byte write failed: %v", n, err)
+					return
+				}
+				if bad := vcommon.CheckKeyed(key, off, buf); bad >= 0 {
+					problem = fmt.Sprintf("the %d-byte write arrived different at its byte %d", n, bad)
+				}
+			})
+			if _, err := w.Write(chunk); err != nil {
+				problem = fmt.Sprintf("write of %d bytes failed: %v", n, err)
+			}
+			switch e2e.Wait(got) {
+			case e2e.Stalled:
+				if problem == "" {
+					problem = fmt.Sprintf("the %d-byte write never arrived", n)
+				}
+			case e2e.Inconclusive:
+				rec.Inconclusive("residues: busy", c)
+				return
+			}
+			if problem != "" {
+				rec.Case("sizes/"+carrier+"/"+dir, true)
+				rec.Violation(carrier+":unix:"+dir+":single-write-of-some-size-lost-or-damaged", c, map[string]interface{}{"size": n, "problem": problem, "written_before": off})
+				return
+			}
+			off += int64(n)
+			e2e.Bump(n)
+		}
+		rec.Case("sizes/"+carrier+"/"+dir, true)
+		rec.Seen("tuple(carrier,len-class,write-size,direction)", carrier+"|every-size-1.."+fmt.Sprint(maxN)+"|own-frame|"+dir)
+		rec.Stat("bytes_verified_"+dir+":"+carrier, off)
+		rec.Stat("single_writes_verified:"+carrier, int64(maxN))
+	}
+}
+
 func TestVerifC01(t *testing.T) {
 	e2e.Quiet()
 	rec := vcommon.Open()
@@ -376,8 +445,15 @@ func TestVerifC01(t *testing.T) {
 	for _, c := range []string{"tcp", "ws", "udp", "dns"} {
 		items = append(items, item{c, "slow"})
 	}
+	for _, c := range []string{"dns", "dns+starttls", "udp", "ws"} {
+		items = append(items, item{c, "sizes"})
+	}
 	for idx, it := range items {
 		if !rec.Mine(idx) {
+			continue
+		}
+		if it.Lst == "sizes" {
+			runResidues(rec, it.Carrier, rec.Pick(420, 1300))
 			continue
 		}
 		if it.Lst == "slow" {
